@@ -714,14 +714,22 @@ class Server(BaseComponent):
 
     def _on_accept_done(self, sock, fire_connect_event=True):
         sock.setblocking(False)
+        peername = ()
+        if fire_connect_event:
+            try:
+                peername = sock.getpeername()
+            except OSError as exc:
+                # errno 107 (ENOTCONN): the client already disconnected.
+                # The connection was never announced by a connect event,
+                # so it is not registered and no disconnect is fired.
+                self._on_handshake_error(sock, exc)
+                with contextlib.suppress(OSError):
+                    sock.close()
+                return
         self._poller.addReader(self, sock)
         self._clients.append(sock)
         if fire_connect_event:
-            try:
-                self.fire(connect(sock, *sock.getpeername()))
-            except OSError as exc:
-                # errno 107 (ENOTCONN): the client already disconnected
-                self._on_handshake_error(sock, exc)
+            self.fire(connect(sock, *peername))
 
     def _on_handshake_error(self, sock, err):
         self.fire(error(sock, err))
